@@ -319,3 +319,21 @@ def canon_if(node: ast.If):
     """(positive test node, statements when it holds, statements otherwise)"""
     t, flipped = canon_cond(node.test)
     return (t, node.orelse, node.body) if flipped else (t, node.body, node.orelse)
+
+
+def arg_of(call: ast.Call, fi, k: int):
+    """the expression bound to the k-th (non-self) parameter of `fi` at this call: by keyword, by position, or the default; None if absent"""
+    params = [a for a in fi.node.args.args if a.arg not in ("self", "cls")]
+    if k >= len(params):
+        return None
+    name = params[k].arg
+    for kw in call.keywords:
+        if kw.arg == name:
+            return kw.value
+    if k < len(call.args):
+        return call.args[k]
+    defaults = fi.node.args.defaults
+    all_params = fi.node.args.args
+    idx = all_params.index(params[k])
+    off = idx - (len(all_params) - len(defaults))
+    return defaults[off] if off >= 0 else None
